@@ -180,6 +180,23 @@ PROPS = {
         "fingerprints": ["engine:", "builder:"],
         "assumptions": ["Go scheduler fairness"],
     },
+    "C19": {
+        "lean": ["GV.Props.C19"],
+        "scenarios": [{"scn": "pool", "filter": "upd", "race": True, "n": {"quick": 40, "thorough": 400}, "aspects": ["race"]},
+                      {"scn": "pool", "filter": "cap", "race": True, "n": {"quick": 30, "thorough": 300}, "aspects": ["race"]},
+                      {"scn": "pool", "filter": "iso", "race": True, "n": {"quick": 30, "thorough": 300}, "aspects": ["race"]},
+                      {"scn": "pool", "filter": "mgmt", "race": True, "n": {"quick": 30, "thorough": 300}, "aspects": ["race"]},
+                      {"scn": "pool", "filter": "churn", "race": True, "n": {"quick": 40, "thorough": 400}, "aspects": ["race", "crash"]},
+                      {"scn": "orch", "race": True, "n": {"quick": 120, "thorough": 1500}, "aspects": ["race"]},
+                      {"scn": "eval", "filter": "conc", "race": True, "n": {"quick": 60, "thorough": 600}, "aspects": ["race"]},
+                      {"scn": "eval", "filter": "locals", "race": True, "n": {"quick": 40, "thorough": 400}, "aspects": ["race"]}],
+        "rule": "the concurrency scenarios of C05-C07, C13, C15, C17, C18 (pool requests from many goroutines with updates from other goroutines and from inside rules, management sequences, all 21 engine execution methods under the gate scheduler, conc blocks, concurrent executions of one rule entity) run with the Go race detector; a report counts when the innermost non-runtime frame of an access is in gengine's source (accesses made through reflect to user data are the rules' own); non-trivial = a scenario case ran",
+        "trusted_base": TB_POOL + ["Go race detector (supporting evidence only; it observes the schedules that happened)",
+                                   "/verif/extract lock-region analysis (syntactic: Lock / Unlock / defer Unlock, go func starts with no lock) and the list of tracked locations",
+                                   "Go memory model: happens-before = program order + mutex release/acquire + go/Wait edges"],
+        "fingerprints": ["engine:", "context:", "builder:", "internal/base:ConcStatement"],
+        "assumptions": ["user data reached through reflect is the rules' responsibility"],
+    },
     "C16": {
         "lean": ["GV.Props.C16"],
         "scenarios": [{"scn": "pool", "filter": "mgmt", "n": {"quick": 150, "thorough": 2000},
@@ -285,6 +302,10 @@ MANIFEST_TEXT["C07"] = {
     "text": "Proof: invariant of the updater / request transition system around updateLock (any number of instances, updaters, requests, every interleaving, updates from inside rules included): when no update is in progress every instance's slot holds the master version; hence the container a request takes is one installed version (atomic), at least the version of every update that has returned (visible), and below the version of any update starting later. Premises regenerated from the source on every run and decided by the kernel: prepare* take the container once under updateLock into a request-private builder; no management operation writes into a possibly published container; every management operation holds updateLock throughout. Differential runs: version-tagged rules, updates from inside rules and from other goroutines against parked executions over ten entry points.",
     "note": "That the engine's execution methods read the container only through the rule builder they are given is by the regenerated orchestration skeletons (C04/C05/C13). Trusted: Lean kernel, extractor, harness clock and comparator; sync.Mutex semantics as modelled.",
     "technique": "Lean 4 invariant proof over an interleaving transition system + kernel-decided regenerated premises + differential update/execution histories"}
+MANIFEST_TEXT["C19"] = {
+    "text": "Proof: (1) lock discipline is sound: in every well-formed trace (mutex semantics) two accesses made under one lock are ordered by happens-before, so a location all of whose accesses hold its guard has no data race - any number of threads, locks, locations, events; (2) the lock table regenerated from engine/, context/, builder/ on every run puts every access to the pool's free lists, cleared flag, execution model, master and per-instance rule builders, the data context's tables, the builder's container and the engine's result map under its guard (kernel-decided), with owner accesses of the result map (before the fan-out, after the join) exempt by the barrier theorem; published containers are immutable (C07's regenerated copy-on-write fact). Supporting runs: the concurrency scenarios under the Go race detector; every report touching gengine source is reported with the detector's stacks as replay. Partial: Go memory model, extractor precision and the completeness of the tracked-location list are trusted.",
+    "note": "The race detector only supports the search for a failing schedule; the claim rests on the discipline theorem and the regenerated table. Trusted: Lean kernel, extractor, harness, comparator.",
+    "technique": "Lean 4 proof of lockset soundness over traces + kernel-decided regenerated lock table + race-detector runs as search"}
 MANIFEST_TEXT["C16"] = {
     "text": "Proof: refinement of the pool's management operations (full / incremental update, removal, clear, SetExecModel) to the denoted (rule set, cleared, model): every operation keeps the invariant (master and every instance hold well-formed containers denoting the same set), changes the denoted set as specified and answers as specified - so no sequence panics - lifted to every finite history; queries answer from the denoted set; every instance, initial or additional, runs exactly the denoted set in salience order; a cleared pool runs nothing and a full or incremental update brings it back. Differential runs compare every operation, all queries and one execution per instance with model and spec.",
     "note": "Model hand-written over container values; that updates never write into a published container is a regenerated fact (GV.Generated.Pool.inPlaceStores) used by C07. Trusted: Lean kernel, extractor, harness, comparator.",
